@@ -19,7 +19,7 @@ LAZY = ['take', 'first', 'isEmpty']
 class C04(Prop):
     id = 'C04'
     extracted = True      # statement-level kernels regenerated from the current source (harness/extract_m.py, Extracted/EquivC04.lean)
-    quick_cases = 1500
+    quick_cases = 3000
     thorough_cases = 20000
     quick_budget_s = 45
     rule = ('fault plans: 1..4 partitions, per partition 0..max_retries(+1) failing attempts, failure position before first '
